@@ -19,6 +19,7 @@ fn main() {
   if args.len() >= 6 && args[1] == "child" {
     match args[2].as_str() {
       "c05" => child::child_main(&args[3..], drive::c05::child_case),
+      "c07" => child::child_main(&args[3..], drive::c07::child_case),
       "c12" => child::child_main(&args[3..], drive::c12::child_case),
       "c19" => child::child_main(&args[3..], drive::c19::child_case),
       "c20" => child::child_main(&args[3..], drive::c20::child_case),
